@@ -133,3 +133,70 @@ Example C20_example_utf16 :
   new_bytes FUEL (NewPtr t_S16) (VList [VInt 1; VStr [97; 128512]])
   = Ok [1;0;0;0; 97;0; 61;216; 0;222; 0;0].
 Proof. repeat split; vm_compute; reflexivity. Qed.
+
+(* ---- "sequence initializers fill leading elements or fields in order, dict initializers set the
+   named fields, and union sequences set the first member"
+
+   ctor_keys 0 fs = the positions (in ct_extra, the keys of a model dict) of the fields without
+   BF_IGNORE_IN_CTOR, in order.  A positional initialiser with at most that many items IS the
+   keyword initialiser naming the leading ones — same bytes, same size, same error: structs and
+   unions, fixed or var-sized (both passes of convert_struct_from_object skip as the code does). *)
+Theorem C20_positional_is_keyword : forall fuel size var fs vs,
+  (length vs <= length (ctor_keys 0 fs))%nat ->
+  new_bytes fuel (NewPtr (LAgg size var fs)) (VList vs) =
+  new_bytes fuel (NewPtr (LAgg size var fs)) (VDict (combine (ctor_keys 0 fs) vs)).
+Proof. exact positional_is_keyword. Qed.
+Print Assumptions C20_positional_is_keyword.
+
+(* more items than constructor fields are never accepted (ValueError "too many initializers",
+   unless an earlier item already failed) *)
+Theorem C20_positional_too_long : forall fuel size var fs vs m,
+  (length (ctor_keys 0 fs) < length vs)%nat ->
+  new_bytes fuel (NewPtr (LAgg size var fs)) (VList vs) <> Ok m.
+Proof. exact positional_too_long. Qed.
+Print Assumptions C20_positional_too_long.
+
+(* union: every member but the first carries BF_IGNORE_IN_CTOR, so a sequence has exactly one
+   constructor field — [v] sets the first member, anything longer is refused *)
+Theorem C20_union_sequence_first_member : forall fuel size var f0 rest v,
+  ignore_in_ctor f0 = false -> Forall (fun f => ignore_in_ctor f = true) rest ->
+  new_bytes fuel (NewPtr (LAgg size var (f0 :: rest))) (VList [v]) =
+  new_bytes fuel (NewPtr (LAgg size var (f0 :: rest))) (VDict [(0, v)]) /\
+  forall v2 vs m, new_bytes fuel (NewPtr (LAgg size var (f0 :: rest))) (VList (v :: v2 :: vs)) <> Ok m.
+Proof.
+  intros fuel size var f0 rest v H0 Hr. pose proof (union_keys f0 rest 0 H0 Hr) as Hk. split.
+  - rewrite positional_is_keyword by (rewrite Hk; cbn; lia). rewrite Hk. reflexivity.
+  - intros v2 vs m. apply positional_too_long. rewrite Hk. cbn. lia.
+Qed.
+Print Assumptions C20_union_sequence_first_member.
+
+(* array sequences fill the leading items: with k items given, the block has len*sizeof(item)
+   bytes and every byte from item k on is zero (items 0..k-1 are converted one after the other at
+   off + j*sizeof(item): fill_items) *)
+Theorem C20_array_sequence_leading : forall fuel item len vs m,
+  wf_type (LArr item len) = true -> 0 <= len ->
+  new_bytes fuel (NewArr item len) (VList vs) = Ok m ->
+  mlen vs <= len /\ mlen m = len * lsize item /\
+  forall i, mlen vs * lsize item <= i -> byte m i = 0.
+Proof. exact array_sequence_leading. Qed.
+Print Assumptions C20_array_sequence_leading.
+
+(* ---- "ffi.sizeof(p[0]) reports that allocated size"
+   new_object = (block, the length slot direct_newp stores for var-sized structs and T[]);
+   sizeof_cdata = direct_sizeof_cdata / _cdata_var_byte_size.  The reported size is the size the
+   sizing pass computed AND the real size of the block, for structs ending in a flexible array as
+   for everything else. *)
+Theorem C20_sizeof_is_alloc_size : forall fuel T init m slot,
+  wf_type (new_target T) = true ->
+  (forall k s, T <> NewPtr (LPrim k s)) ->
+  new_object fuel T init = Ok (m, slot) ->
+  alloc_size fuel T init = Ok (sizeof_cdata T slot) /\ mlen m = sizeof_cdata T slot.
+Proof. exact sizeof_is_alloc_size. Qed.
+Print Assumptions C20_sizeof_is_alloc_size.
+
+Example C20_example_sizeof :
+  new_object FUEL (NewPtr t_X) (VList [VInt 5; VList [VInt 1; VList [VInt 7; VInt 8; VInt 9]]])
+  = Ok ([5;0;0;0; 1;0;0;0; 7;0;0;0; 8;0;0;0; 9;0;0;0], Some 20) /\
+  sizeof_cdata (NewPtr t_X) (Some 20) = 20 /\
+  ctor_keys 0 (agg_fields t_U) = [0] /\ ctor_keys 0 (agg_fields t_X) = [0; 1].
+Proof. repeat split; vm_compute; reflexivity. Qed.
